@@ -37,11 +37,15 @@ def gen_case(r):
         else:
             proj = r.sample(attrs, r.randint(1, min(3, n)))
         p = math.prod(sizes[a] for a in proj)
-        kind = r.choice(['identity', 'none', 'int', 'prefix', 'total'])
+        kind = r.choice(['identity', 'none', 'int', 'prefix', 'total', 'diag'])
         if kind in ('identity', 'none'):
             Q = np.eye(p)
+        elif kind == 'diag':
+            Q = np.diag([float(r.choice([1, 2, 3, -2, 4])) for _ in range(p)]) if r.random() < 0.6 else float(r.choice([2, 3, 4])) * np.eye(p)
         elif kind == 'int':
             Q = np.array([[r.randint(-2, 3) for _ in range(p)] for _ in range(r.randint(1, p + 1))], dtype=float)
+            if not Q.any():
+                Q[0, 0] = 1.0      # an all-zero query matrix is not a measurement (ARPACK rejects it: "starting vector is zero")
         elif kind == 'prefix':
             Q = np.tril(np.ones((p, p)))
         else:
@@ -61,10 +65,15 @@ def spell(r, m, variant):
         Qs = None if m['qkind'] == 'none' else Q
         ps = tuple(proj)
     else:
-        k = r.choice(['dense', 'sparse', 'op'] + (['none'] if m['qkind'] in ('identity', 'none') else []))
-        Qs = {'dense': Q, 'sparse': sparse.csr_matrix(Q), 'op': aslinearoperator(sparse.csr_matrix(Q)), 'none': None}[k]
+        k = r.choice(['dense', 'sparse', 'op', 'csc', 'coo', 'dia'] + (['none'] if m['qkind'] in ('identity', 'none') else []))
+        Qs = {'dense': Q, 'sparse': sparse.csr_matrix(Q), 'op': aslinearoperator(sparse.csr_matrix(Q)), 'none': None,
+              'csc': sparse.csc_matrix(Q), 'coo': sparse.coo_matrix(Q), 'dia': sparse.dia_matrix(Q)}[k]
+        SPELLINGS[k] = SPELLINGS.get(k, 0) + 1
         ps = r.choice([tuple(proj), list(proj)] + ([proj[0]] if len(proj) == 1 else []))
     return (Qs, m['y'], m['noise'], ps)
+
+
+SPELLINGS = {}
 
 
 def marg_of_table(dom, table, attrs_out):
@@ -114,8 +123,9 @@ def run(res, drv, tier, seed):
             loss1, grad1 = eng1._marginal_loss(mu1)
             try:
                 lip = eng._lipschitz(ms)
+                lip1 = eng1._lipschitz(ms1)
             except TypeError as ex:
-                lip = None
+                lip = lip1 = None
                 lip_err = str(ex)[:80]
             # direction for the derivative identity
             h = cliquevec(eng, dom, lambda cl: [r.randint(-3, 3) for _ in range(math.prod(sizes[a] for a in cl))])
@@ -167,6 +177,8 @@ def run(res, drv, tier, seed):
             bad, key = f'_lipschitz raises TypeError ({lip_err}) for a measurement over a 1-cell marginal', 'lipschitz:one-cell'
         elif lip < lam * (1 - 1e-9) - 1e-9:
             bad, key = f'smoothness constant {lip} is below the largest Hessian eigenvalue {lam}', 'lipschitz:below-hessian'
+        elif lip1 < lam * (1 - 1e-9) - 1e-9:
+            bad, key = f'smoothness constant {lip1} for an equivalent spelling of the measurements (dense / csr / csc / coo / dia / operator) is below the largest Hessian eigenvalue {lam}', 'lipschitz:below-hessian'
         rp = {'request': canon, 'observed': {'loss': loss, 'lipschitz': lip, 'lambda_max': lam, 'groups': {str(k): v for k, v in groups.items()}}}
         rows.append((canon, bad, key, rp, eng, mu, meas, loss, grad, lip))
         eigs = [float(np.linalg.eigvalsh(m['Q'].T @ m['Q']).max()) for m in meas]
@@ -175,6 +187,8 @@ def run(res, drv, tier, seed):
                                'noise': enc_q(Fr(m['noise']).limit_denominator(1000)), 'proj': m['proj']} for m in meas],
                      'mu': [{'clique': list(cl), 'dom': [[a, sizes[a]] for a in cl], 'vals': [enc_q(int(v)) for v in mu[cl].values.flatten()]} for cl in eng.model.cliques],
                      'eigs': [enc_q(Fr(e).limit_denominator(10**9)) for e in eigs]})
+    res.extra['spellings_used'] = dict(SPELLINGS)
+    history_loss(res, r, tier)
     resps = drv.run(reqs) if drv else [None] * n
     for (canon, bad, key, rp, eng, mu, meas, loss, grad, lip), resp in zip(rows, resps):
         if bad:
@@ -205,6 +219,60 @@ def run(res, drv, tier, seed):
             d = f'lipschitz: model {float(dec_q(o["lipschitz"]))} impl {lip}'
         if d:
             res.violation('correspondence', d + '; the independent checks hold on this input', dict(rp, model=o, stream='C04.loss'))
+
+
+def spec_loss_of(dom, meas, table):
+    out = Fr(0)
+    for m in meas:
+        x = marg_of_table(dom, table, m['proj'])
+        c = 1 / Fr(m['noise'])
+        for row, yi in zip(m['Q'], m['y']):
+            d_ = c * (sum(Fr(int(q)) * xv for q, xv in zip(row, x)) - Fr(int(yi)))
+            out += d_ * d_ / 2
+    return out
+
+
+def history_loss(res, r, tier):
+    """the objective after a SECOND setup on one (warm-started or cold) engine is the objective of the second call's measurement list:
+    grown lists that change the model cliques, a replaced answer vector, a removed measurement"""
+    from mbi import Domain, FactoredInference
+    for ci in range(12 if tier == 'quick' else 120):
+        dom, meas, table = gen_case(r)
+        if len(meas) < 2:
+            continue
+        k = r.randint(1, len(meas) - 1)
+        first = meas[:k]
+        mode = r.choice(['grow', 'replace', 'remove', 'grow'])
+        if mode == 'grow':
+            second = list(meas)
+        elif mode == 'replace':
+            second = [dict(m, y=m['y'] + float(r.randint(1, 9))) if i == 0 else m for i, m in enumerate(first)] + meas[k:]
+        else:
+            second = meas[k:] + first[1:]
+        warm = r.random() < 0.7
+        d = Domain([a for a, _ in dom], [s for _, s in dom])
+        eng = FactoredInference(d, iters=1, warm_start=warm)
+        canon = {'dom': dom, 'history': mode, 'warm_start': warm, 'first': [m['proj'] for m in first], 'second': [m['proj'] for m in second],
+                 'meas': [{'Q': m['Q'].tolist(), 'y': m['y'].tolist(), 'noise': m['noise'], 'proj': m['proj']} for m in second]}
+        res.case(canon, True)
+        res.count('history: objective after a second setup on one engine')
+        try:
+            with np.errstate(all='ignore'):
+                l1 = [spell(r, m, 0) for m in first]
+                eng._setup(eng.fix_measurements(l1), 100.0)
+                mu = cliquevec(eng, dom, lambda cl: marg_of_table(dom, table, list(cl)))
+                eng._marginal_loss(mu)
+                l2 = [next(a for a, mm in zip(l1, first) if mm is m) if any(mm is m for mm in first) else spell(r, m, 0) for m in second]
+                eng._setup(eng.fix_measurements(l2), 100.0)
+                mu = cliquevec(eng, dom, lambda cl: marg_of_table(dom, table, list(cl)))
+                loss, grad = eng._marginal_loss(mu)
+        except Exception as e:
+            res.violation('failing-input', f'second _setup / _marginal_loss on one engine raises {type(e).__name__}: {str(e)[:100]}', {'request': canon}, key='loss:history-raises')
+            continue
+        want = float(spec_loss_of(dom, second, table))
+        if not close(loss, want, 1e-9, 1e-9):
+            res.violation('failing-input', f'after a second setup ({mode}, warm_start={warm}) the engine\'s loss is {loss}, the sum over the second call\'s measurements (each once) is {want}',
+                          {'request': canon, 'observed': loss, 'expected': want}, key='loss:history')
 
 
 def search(res, tier, seed, broken):
